@@ -61,7 +61,7 @@ static const LvlV lvl_variants[] = {
     {"ml1",          0, 1, 1,   true},     // single level: smoother only
 };
 
-struct Cfg { int ci, ri, lv; unsigned ncycle, npre, npost, pre_cycles; bool est = false; /* coarsening.estimate_spectral_radius */ };
+struct Cfg { int ci, ri, lv; unsigned ncycle, npre, npost, pre_cycles; bool est = false; /* coarsening.estimate_spectral_radius */ bool chs = false; /* relax.scale (Chebyshev on D^-1 A, Gershgorin bound) */ };
 
 static ptree make_ptree(const Cfg &c, int n) {
     ptree p;
@@ -73,10 +73,11 @@ static ptree make_ptree(const Cfg &c, int n) {
     p.put("direct_coarse", v.direct);
     p.put("ncycle", c.ncycle); p.put("npre", c.npre); p.put("npost", c.npost); p.put("pre_cycles", c.pre_cycles);
     if (c.est) p.put("coarsening.estimate_spectral_radius", true);
+    if (c.chs) p.put("relax.scale", true);
     return p;
 }
 static std::string cfg_key(const Cfg &c) {
-    return vf::KS() << coars_names[c.ci] << "|" << relax_names[c.ri] << "|" << lvl_variants[c.lv].name << "|nc" << c.ncycle << "|pre" << c.npre << "|post" << c.npost << "|pc" << c.pre_cycles << (c.est ? "|est" : "");
+    return vf::KS() << coars_names[c.ci] << "|" << relax_names[c.ri] << "|" << lvl_variants[c.lv].name << "|nc" << c.ncycle << "|pre" << c.npre << "|post" << c.npost << "|pc" << c.pre_cycles << (c.est ? "|est" : "") << (c.chs ? "|chebscale" : "");
 }
 
 static std::vector<double> ramp(int n) { std::vector<double> f(n); for (int i = 0; i < n; ++i) f[i] = 1 + (i * 3) % 7; return f; }
@@ -451,6 +452,14 @@ static void run_grids() {
             // in particular invariance of B under scaling of A by powers of two
             for (int ri : {0, 1, 2}) for (int lv : {0, 2}) for (unsigned q = 1; q <= 2; ++q) {
                 Cfg c{1, ri, lv, q, q, q, 1}; c.est = true;
+                auto keyf = [&]{ return std::string(vf::KS() << "grid|" << m.id << "|" << cfg_key(c)); };
+                if (!vf::take(keyf)) continue;
+                run_case(keyf(), m, c, true);
+            }
+            // Chebyshev relaxation of the diagonally scaled matrix (relax.scale = true, non-default; the bound is the Gershgorin
+            // bound of D^-1 A, an upper bound of its spectrum, so the polynomial is a contraction on these matrices)
+            for (int ci = 0; ci < 4; ++ci) for (int lv : {0, 2, 4}) for (unsigned q = 1; q <= 2; ++q) {
+                Cfg c{ci, 6, lv, q, q, q, 1}; c.chs = true;
                 auto keyf = [&]{ return std::string(vf::KS() << "grid|" << m.id << "|" << cfg_key(c)); };
                 if (!vf::take(keyf)) continue;
                 run_case(keyf(), m, c, true);
